@@ -450,3 +450,57 @@ stage("resample", params=lambda W: {
   (lambda P, i, p: P.lp.resample(i[0], old=p["old"], new=p["new"],
                                  order=p["order"]),
    lambda i, p: M.m_resample(i, p["old"], p["new"], p["order"])))
+
+
+# ---------------------------------------------------- internal fan-out exprs
+def _thub_expr(P, i, p):
+  x = P.ls.thub(S(P, i[0]), 2)
+  return (x - 1) / (x + 1)
+
+
+def _tee_sum(P, i, p):
+  a, b = P.lit.tee(S(P, i[0]), 2)
+  return a + b * 2
+
+
+def _copy_sum(P, i, p):
+  s = S(P, i[0])
+  return s.copy() - s
+
+
+stage("thub_expr")((_thub_expr, lambda i, p: M.m_each(i)))
+stage("tee_sum")((_tee_sum, lambda i, p: M.m_each(i)))
+stage("copy_sum")((_copy_sum, lambda i, p: M.m_each(i)))
+stage("poly_call_stream")(
+  (lambda P, i, p: (P.lp.x ** 2 + 2 * P.lp.x + 1)(S(P, i[0])),
+   lambda i, p: M.m_each(i)))
+stage("poly_call_horner_off")(
+  (lambda P, i, p: (P.lp.x ** 3 - P.lp.x + 7)(S(P, i[0]), horner=False),
+   lambda i, p: M.m_each(i)))
+
+# ------------------------------------------------- synthesis with Stream input
+stage("modcount_start", params=lambda W: {"step": W.pick("step", [1., 0.,
+                                                                  300.])})(
+  (lambda P, i, p: P.lsy.modulo_counter(i[0], 256., p["step"]),
+   lambda i, p: M.m_each(i)))
+stage("modcount_step")(
+  (lambda P, i, p: P.lsy.modulo_counter(0., 256., i[0]),
+   lambda i, p: M.m_each(i)))
+stage("modcount_modulo")(
+  (lambda P, i, p: P.lsy.modulo_counter(0., i[0], 1.),
+   lambda i, p: M.m_each(i)))
+stage("modcount_start_step", extra=("num",))(
+  (lambda P, i, p: P.lsy.modulo_counter(i[0], 256., i[1]),
+   lambda i, p: M.m_lockstep(i)))
+stage("modcount_all", extra=("num", "num"))(
+  (lambda P, i, p: P.lsy.modulo_counter(i[0], i[1], i[2]),
+   lambda i, p: M.m_lockstep(i)))
+stage("sinusoid_freq")((lambda P, i, p: P.lsy.sinusoid(i[0]),
+                        lambda i, p: M.m_each(i)))
+stage("sinusoid_phase")((lambda P, i, p: P.lsy.sinusoid(.1, phase=i[0]),
+                         lambda i, p: M.m_each(i)))
+stage("table_lookup_freq")((lambda P, i, p: P.lsy.sin_table(S(P, i[0])),
+                            lambda i, p: M.m_each(i)))
+stage("table_lookup_phase")(
+  (lambda P, i, p: P.lsy.saw_table(.05, phase=S(P, i[0])),
+   lambda i, p: M.m_each(i)))
